@@ -316,7 +316,7 @@ fn ty_parts(t: &IrType) -> (u64, u64) {
 }
 
 /// `(variant index, type payload, numeric payload, name)`.
-fn op_parts(op: &Operation) -> (u64, Option<(u64, u64)>, Option<u64>, &'static str) {
+pub(crate) fn op_parts(op: &Operation) -> (u64, Option<(u64, u64)>, Option<u64>, &'static str) {
     use Operation::*;
     match op {
         Load(t) => (0, Some(ty_parts(t)), None, "Load"),
@@ -423,9 +423,9 @@ pub fn irb_child(file: &str, start: usize) {
 }
 
 /// Cases of the bincode sweep, decoded in a child process by `run_irb_batch`.
-pub struct IrbCases(Vec<(String, Vec<u8>)>);
+pub struct IrbCases(pub(crate) Vec<(String, Vec<u8>)>);
 
-fn irb_case(cases: &mut IrbCases, bytes: &[u8], kind: &str) {
+pub(crate) fn irb_case(cases: &mut IrbCases, bytes: &[u8], kind: &str) {
     cases.0.push((kind.to_string(), bytes.to_vec()));
 }
 
@@ -747,6 +747,7 @@ pub fn run_ir(run: &mut Run) {
         let m: Vec<u8> = (0..n).map(|_| if rng.gen_bool(0.8) { rng.gen_range(0..6) } else { rng.gen() }).collect();
         irb_case(&mut cases, &m, "random-small");
     }
+    crate::extra::ir_length_fields(&mut cases);
     run_irb_batch(run, cases);
 }
 
